@@ -36,6 +36,7 @@ NCH = 8
 def run(chk):
     chk.section("templates", lambda: templates(chk))
     chk.section("names", lambda: names(chk))
+    chk.section("const-values", lambda: const_values(chk))
     for i in range(NCH):
         chk.section(f"bounded-{i}", lambda i=i: bounded(chk, i))
     chk.expected_min_obligations = 30
@@ -379,3 +380,59 @@ def fresh_name_induction(chk, e):
                   hy + [i2_n, spec], z3.Implies(z3.Select(issued2, n), z3.Or(z3.Select(dom2, n), wit(e1, k1), wit(d, c))), func=F)
     # vacuity guards: the hypotheses are satisfiable on each path; a wrong goal fails
     chk.must_fail("_fresh_name:guard(an issued name CAN be returned if primes are allowed in display names)", [], z3.Implies(z3.And(z3.String("a") != z3.String("b")), primed(z3.String("a"), z3.IntVal(1)) != z3.String("b")), func=F)
+
+
+def const_values(chk):
+    """TypePrinter._visit_ConstValue: a constant used as a type argument is printed as a Python literal
+    that evaluates to EXACTLY that constant (same value, same type) — the annotation parser reads const
+    arguments with ast.literal_eval-like rules, so anything less (a rounded float) reads back as a
+    different type, and two different constants could print alike.  Pool: ints, nats at the 64-bit
+    boundaries, bools, and floats that do not survive rounding (0.1 + 0.2, pi, 1e-15, 2e-15, 1e300,
+    5e-324, 1/3, 2**53 + 2.0)."""
+    import ast as _ast
+    e = mk_engine(chk)
+    e.func_info(PR, "TypePrinter._visit_ConstValue")
+    POOL = [0, 1, -1, 42, 2 ** 63 - 1, -2 ** 63, 2 ** 64 - 1, True, False, 1.5, 0.25, 42.0, 0.1 + 0.2, 3.141592653589793, 1e-15, 2e-15, 1e300, 5e-324, 1 / 3, 2.0 ** 53 + 2.0, -0.75, 123456789.123456789]
+
+    def t(it):
+        TP = it.lookup_global(e.module(PR), "TypePrinter")
+        out = []
+        for v in POOL:
+            p = it.call(TP, [], {})
+            cv = SObj(ClassVal("ConstValue", builtin=True), {"value": v, "ty": None})
+            f, _ = TP.lookup("_visit_ConstValue")
+            out.append(it.call(f, [p, cv, False], {}))
+        return out
+    paths = e.explore(t)
+
+    def post(p):
+        if p.kind != "return":
+            return z3.BoolVal(False)
+        bad = []
+        for v, txt in zip(POOL, p.value):
+            try:
+                back = _ast.literal_eval(txt)
+            except Exception:  # noqa
+                back = object()
+            if type(back) is not type(v) or back != v:
+                bad.append((v, txt))
+        p.ctx.ghost["bad"] = bad
+        texts = list(p.value)
+        return z3.BoolVal(not bad and len(set(zip(map(type, POOL), texts))) == len(POOL))
+    chk.prove_paths(f"TypePrinter._visit_ConstValue[{len(POOL)} constants]:the-printed-literal-evaluates-to-exactly-the-constant/\\different-constants-print-differently", paths, post,
+                    func=f"{PR}:TypePrinter._visit_ConstValue", replay=lambda m: {"script": REPLAY_CONST, "input": {}})
+    chk.use_engine(e)
+
+
+REPLAY_CONST = r'''
+import ast
+from guppylang_internals.tys.printing import TypePrinter
+from guppylang_internals.tys.const import ConstValue
+from guppylang_internals.tys.ty import NumericType
+bad = []
+for v in (0.1 + 0.2, 3.141592653589793, 1e-15, 2e-15, 1 / 3, 1.5, 42.0):
+    txt = TypePrinter().visit(ConstValue(NumericType(NumericType.Kind.Float), v))
+    if ast.literal_eval(txt) != v:
+        bad.append([repr(v), txt])
+print(json.dumps({"violates": bool(bad), "constant_and_printed_text": bad}))
+'''
